@@ -1,7 +1,7 @@
 /-
-C01 at the level of BYTES (stage 1: TrueType outlines, no cmap, no glyph names, no layout
+C01 at the level of BYTES (stage 2: TrueType outlines with cmap table and glyph names; no layout
 tables): `Read(Write(F))` computed on the bytes of the file — container (C03), head / hhea / hmtx /
-maxp / OS-2 / post (C12), name (C14), glyf / loca (C11) composed as write.go and read.go compose
+maxp / OS-2 (C12), name and post with glyph names (C14), cmap (C09), glyf / loca (C11) composed as write.go and read.go compose
 them — is the explicit normal form.  Model: Model/FontFile.lean; proofs: Proofs/FontFile*.lean.
 -/
 import SfntV.Proofs.FontFileRoundTrip
@@ -12,7 +12,8 @@ open SfntV SfntV.Font SfntV.FontFile
 /-- **Byte-level round trip.**  For every TrueType font value in `InDomainFile` (the conjunction
 of the domain guards of the composed codec theorems, each named in the structure), `Write` produces
 a file and `Read` of exactly those bytes returns the normal form `nfFile F`: scalar fields `nf`,
-glyph data, maxp maxima and the TrueType side tables unchanged.  The caret angle `Read` recovers
+glyph data, maxp maxima, the TrueType side tables, the cmap subtables and the glyph names
+unchanged.  The caret angle `Read` recovers
 from hhea by float trigonometry (`caretOf`) is arbitrary and cannot influence the result. -/
 theorem C01_file_roundtrip (ef : EnvF) (caretOf : Int → Int → Int) (F : FileFont) (h : InDomainFile ef F) :
     ∃ b, writeFile ef F = .ok b ∧ readFile caretOf b = .ok (nfFile F) :=
@@ -31,6 +32,12 @@ def exGlyphs : Glyf.Glyphs :=
     [0x00, 0x03, 0x00, 0x11, 0x40, 0x0e, 0x00, 0x00, 0x01, 0x00, 0x85, 0x00, 0x01, 0x01, 0x76, 0x11, 0x10,
      0x02, 0x06, 0x18, 0x2b, 0x11, 0x21, 0x11, 0x21, 0x04, 0xcd, 0xfb, 0x33, 0x02, 0xf0, 0xfb, 0x60]⟩]
 
+/-- a format 4 subtable mapping 'A' and 'H' to glyph 1 -/
+def exCmap4 : Bytes :=
+  [0x00, 0x04, 0x00, 0x28, 0x00, 0x00, 0x00, 0x06, 0x00, 0x04, 0x00, 0x01, 0x00, 0x02,
+   0x00, 0x41, 0x00, 0x48, 0xff, 0xff, 0x00, 0x00, 0x00, 0x41, 0x00, 0x48, 0xff, 0xff,
+   0xff, 0xc0, 0xff, 0xb9, 0x00, 0x01, 0x00, 0x00, 0x00, 0x00, 0x00, 0x00]
+
 def exFileFont : FileFont :=
   { scalars :=
       { familyName := ['T', 'e', 's', 't'], width := 5, weight := 700, isRegular := false, isBold := true,
@@ -44,6 +51,8 @@ def exFileFont : FileFont :=
         outline := default, gdef := none, gsub := none, gpos := none },
     glyphs := exGlyphs, widths := [1000, 1300],
     maxpTtf := [317, 36, 0, 0, 2, 216, 348, 141, 0, 500, 3596, 0, 0],
-    sideTables := [(tag "cvt ", [0, 1, 0, 2])] }
+    sideTables := [(tag "cvt ", [0, 1, 0, 2])],
+    cmap := some [(⟨0, 3, 0⟩, exCmap4), (⟨3, 1, 0⟩, exCmap4)],
+    glyphNames := some [[46, 110, 111, 116, 100, 101, 102], [65]] }
 
 end SfntV.Props.C01
